@@ -42,8 +42,8 @@ theorem advanceLoop_safe (pj : PJ) (i : Iter) (off : Nat) (hl : i.lim ≤ pj.tap
       (live = false → i'.addNext = 0 ∧ i'.t = tagEnd ∧ i.lim ≤ i'.off) ∧
       (live = true → off < i'.off ∧ i'.off ≤ i.lim) := by
   fun_induction Iter.advanceLoop pj i off with
-  | case1 off h => exact ⟨_, _, rfl, rfl, Nat.le_refl _, fun _ => ⟨rfl, rfl, h⟩, by simp⟩
-  | case2 off h ih =>
+  | case1 i off h => exact ⟨_, _, rfl, rfl, Nat.le_refl _, fun _ => ⟨rfl, rfl, h⟩, by simp⟩
+  | case2 i off h ih =>
     have hlt : off < pj.tape.size := by omega
     rw [rdT_ok pj off hlt]
     simp only [Res.bind_ok]
@@ -51,7 +51,7 @@ theorem advanceLoop_safe (pj : PJ) (i : Iter) (off : Nat) (hl : i.lim ≤ pj.tap
     · split
       · refine ⟨_, _, rfl, rfl, ?_, by simp [Iter.moveToEnd], by simp⟩
         simp only [Iter.moveToEnd]; omega
-      · obtain ⟨i', live, he, h1, h2, h3, h4⟩ := ih pj.tape[off]
+      · obtain ⟨i', live, he, h1, h2, h3, h4⟩ := ih pj.tape[off] hl
         exact ⟨i', live, he, h1, by omega, h3, fun hh => ⟨by have := h4 hh; omega, (h4 hh).2⟩⟩
     · exact ⟨_, _, rfl, rfl, by simp, by simp, fun _ => ⟨by simp, by simp; omega⟩⟩
 
@@ -107,11 +107,11 @@ theorem advanceIntoLoop_safe (pj : PJ) (i : Iter) (off : Nat) (hl : i.lim ≤ pj
       (live = true → off < i'.off ∧ i'.off ≤ i.lim ∧ i'.t ≠ tagNop ∧
         Iter.peekLoop pj i.lim off = .ok i'.t) := by
   fun_induction Iter.advanceIntoLoop pj i off with
-  | case1 off h =>
+  | case1 i off h =>
     refine ⟨_, _, rfl, rfl, Nat.le_refl _, ?_, by simp⟩
     intro _
     rw [Iter.peekLoop]; simp [h]
-  | case2 off h ih =>
+  | case2 i off h ih =>
     have hlt : off < pj.tape.size := by omega
     rw [Iter.peekLoop]
     rw [rdT_ok pj off hlt]
@@ -128,7 +128,7 @@ theorem advanceIntoLoop_safe (pj : PJ) (i : Iter) (off : Nat) (hl : i.lim ≤ pj
         · intro _; simp [Iter.moveToEnd, hz]
       · next hc =>
         have hz : (payloadOf pj.tape[off]).toNat ≠ 0 := u64_ne_zero_toNat hc
-        obtain ⟨i', live, he, h1, h2, h3, h4⟩ := ih pj.tape[off] hc
+        obtain ⟨i', live, he, h1, h2, h3, h4⟩ := ih pj.tape[off] hc hl
         simp only [hz, if_false]
         exact ⟨i', live, he, h1, by omega, h3, fun hh => ⟨by have := h4 hh; omega, (h4 hh).2⟩⟩
     · next ht =>
@@ -136,22 +136,23 @@ theorem advanceIntoLoop_safe (pj : PJ) (i : Iter) (off : Nat) (hl : i.lim ≤ pj
       simpa using ht
 
 theorem advanceIterLoop_safe (pj : PJ) (i : Iter) (off : Nat) (hl : i.lim ≤ pj.tape.size) :
-    Iter.advanceIterLoop pj i off = .ok none ∨
+    (∃ i0, Iter.advanceIterLoop pj i off = .ok (i0, false) ∧ i0.lim = i.lim ∧ i0.off = i.lim ∧ off ≤ i0.off ∧
+      i0.addNext = 0 ∧ i0.t = tagEnd) ∨
     (∃ e, Iter.advanceIterLoop pj i off = .error e) ∨
-    (∃ i1, Iter.advanceIterLoop pj i off = .ok (some i1) ∧ i1.lim = i.lim ∧ off < i1.off ∧
+    (∃ i1, Iter.advanceIterLoop pj i off = .ok (i1, true) ∧ i1.lim = i.lim ∧ off < i1.off ∧
       i1.off ≤ i.lim ∧ i1.addNext = i.addNext) := by
   fun_induction Iter.advanceIterLoop pj i off with
-  | case1 => exact Or.inl rfl
-  | case2 off h1 h2 => exact Or.inr (Or.inl ⟨_, rfl⟩)
-  | case3 off h1 h2 ih =>
+  | case1 i => exact Or.inl ⟨_, rfl, rfl, rfl, Nat.le_refl _, rfl, rfl⟩
+  | case2 i off h1 h2 => exact Or.inr (Or.inl ⟨_, rfl⟩)
+  | case3 i off h1 h2 ih =>
     have hlt : off < pj.tape.size := by omega
     rw [rdT_ok pj off hlt]
     simp only [Res.bind_ok]
     split
     · split
       · exact Or.inr (Or.inl ⟨_, rfl⟩)
-      · rcases ih pj.tape[off] with h | h | ⟨i1, he, a, b, c, d⟩
-        · exact Or.inl h
+      · rcases ih pj.tape[off] hl with ⟨i0, he, a, b, c, d⟩ | h | ⟨i1, he, a, b, c, d⟩
+        · exact Or.inl ⟨i0, he, a, b, by omega, d⟩
         · exact Or.inr (Or.inl h)
         · exact Or.inr (Or.inr ⟨i1, he, a, by omega, c, d⟩)
     · exact Or.inr (Or.inr ⟨_, rfl, rfl, by simp, by simp; omega, rfl⟩)
@@ -293,20 +294,20 @@ theorem advanceIter_safe (pj : PJ) (i d : Iter) (hv : Iter.Valid pj i) :
   unfold Iter.advanceIter
   rw [bump_ok i ha]
   simp only [Res.bind_ok]
-  rcases advanceIterLoop_safe pj i (i.off + i.addNext.toNat) hl with h | ⟨e, h⟩ | ⟨i1, h, a, b, c, _⟩
+  rcases advanceIterLoop_safe pj i (i.off + i.addNext.toNat) hl with ⟨i0, h, z1, z2, z3, z4, z5⟩ | ⟨e, h⟩ | ⟨i1, h, a, b, c, _⟩
   · rw [h]
-    simp only [Res.bind_ok]
+    simp only [Res.bind_ok, Bool.not_false, if_true]
     refine ⟨Or.inl ⟨_, rfl⟩, ?_⟩
     intro i2 d2 ty heq
     injection heq with heq
     injection heq with e1 e2
     injection e2 with e2 e3
     subst e1 e2 e3
-    exact ⟨⟨hl, Int.le_refl _⟩, rfl, Nat.le_refl _, Or.inl ⟨rfl, rfl, rfl⟩⟩
+    exact ⟨⟨by omega, by omega⟩, z1, z3, Or.inl ⟨rfl, rfl, z4⟩⟩
   · rw [h]
     exact ⟨Or.inr ⟨_, rfl⟩, fun _ _ _ heq => by cases heq⟩
   · rw [h]
-    simp only [Res.bind_ok]
+    simp only [Res.bind_ok, Bool.not_true, Bool.false_eq_true, if_false]
     obtain ⟨c1, c2, c3, c4⟩ := calcNext_fields i1 false
     obtain ⟨k1, k2, k3, k4⟩ := calcNext_fields (i1.calcNext false) true
     have c5 := calcNext_into_addNext (i1.calcNext false)
